@@ -7,6 +7,7 @@ import UnifexModel.Driver.Entries.StopSource
 import UnifexModel.Driver.Entries.Calc
 import UnifexModel.Driver.Entries.Timer
 import UnifexModel.Driver.Entries.Scope
+import UnifexModel.Driver.Entries.Bulk
 
 namespace Unifex.Driver
 
@@ -19,6 +20,7 @@ def table : List ModelEntries :=
   , Entries.scopev2
   , Entries.scopev1
   , Entries.scopev0
+  , Entries.bulk
   ]
 
 def lookup (m c : String) : Option Entry :=
